@@ -441,6 +441,12 @@ func runC14(env *Env) {
 			c := p.Node("catch", "C")
 			c.Attrs = fmt.Sprintf(`parallelMultiple="%v"`, par)
 			c.Inner = `<bpmn:signalEventDefinition id="dA" signalRef="sA"/><bpmn:signalEventDefinition id="dB" signalRef="sB"/>`
+			if r%2 == 1 {
+				// an id is optional on an event definition: every other round the definitions carry none
+				c.Inner = `<bpmn:signalEventDefinition signalRef="sA"/><bpmn:signalEventDefinition signalRef="sB"/>`
+				cs += ", definitions without id"
+				env.Current(cs)
+			}
 			p.Node("task", "B0")
 			p.Node("end", "end")
 			p.Flow("start", "C", "")
@@ -461,6 +467,9 @@ func runC14(env *Env) {
 			first, last := "sA", "sB"
 			if !par {
 				first, last = "sN", "sA"
+				if r%4 >= 2 {
+					last = "sB" // the second definition decides
+				}
 			}
 			for i := 0; i < 8; i++ {
 				in.Signal(first)
